@@ -133,7 +133,21 @@ def _lines_of(ntok, first=None):
             yield ' '.join((first,) + tup)
 
 
+# seed-independent paragraphs: one per recorded finding / repaired defect / seeded change that the
+# sampled part of the domain reached only for some seeds
+DIRECTED = [
+    ['a |', '     --- |'],                       # delimiter row indented 4+: continuation text (recorded finding)
+    ['x', 'y', '    | --'],                      # no pipe in the would-be header line (fixed 32ece83)
+    ['the old rule said', '\t> 10 items'],       # a tab-indented '>' is no block quote marker
+    ['a', '\t# b'], ['a', '\t- b'], ['a', ' \t1. b'], ['a', '\t***'], ['a', '\t```'],
+]
+
+
 def _cases(task):
+    if task[0] == 'directed':
+        for lines in DIRECTED:
+            yield list(lines)
+        return
     if task[0] == 'ex':
         _, shape, first = task
         if len(shape) == 1:
@@ -177,7 +191,7 @@ def run(tier, seed, workers):
     thorough = tier == 'thorough'
     n_self = SI.selftest()
     shapes = [(1,), (2,), (1, 1)] + ([(1, 2), (2, 1)] if thorough else [])
-    tasks = [('ex', (1,), None)]
+    tasks = [('directed',), ('ex', (1,), None)]
     for sh in shapes[1:]:
         for tok in VOCAB:
             tasks.append(('ex', sh, tok))
